@@ -184,7 +184,6 @@ Qed.
 Record wf_vdata (d : vdata) : Prop := {
   wf_points : wf_narray (v_points d);
   wf_nodup : NoDup (map fst (v_groups d));
-  wf_rect : rectangular (v_groups d);
   wf_conn : wf_arr (v_itype d) 1 (col (writer_connectivity (v_groups d)));
   wf_offs : fits_index (writer_offsets (v_groups d));
   wf_types : fits_index (writer_types (v_groups d));
@@ -201,7 +200,7 @@ Definition expected_read (d : vdata) : vread :=
 
 Theorem read_write_vtu bo d : wf_vdata d -> read_vtu bo (write_vtu bo d) = Some (expected_read d).
 Proof.
-  intros [Hp Hnd Hrect Hc Ho Ht Hpd Hcd]. unfold read_vtu, write_vtu.
+  intros [Hp Hnd Hc Ho Ht Hpd Hcd]. unfold read_vtu, write_vtu.
   cbn [f_points f_conn f_offs f_types f_pdata f_cdata].
   rewrite (rd_mk_arr bo _ Hp).
   rewrite (rd_mk bo _ _ _ Hc).
@@ -224,7 +223,7 @@ Theorem vtu_file_write_read bo d : wf_vdata d ->
                     (v_cdata d).
 Proof.
   intros H. exists (expected_read d). split; [apply read_write_vtu; exact H|].
-  destruct (vtu_cells_write_read (v_groups d) (wf_nodup d H) (wf_rect d H)) as (Ha & Hin & Hout).
+  destruct (vtu_cells_write_read (v_groups d) (wf_nodup d H)) as (Ha & Hin & Hout).
   unfold expected_read. cbn [r_points r_pdata r_groups r_cdata].
   split; [reflexivity|]. split; [reflexivity|]. split; [exact Ha|]. split; [exact Hin|]. split; [exact Hout|]. reflexivity.
 Qed.
@@ -259,7 +258,7 @@ Definition rectangularb (g : groups) : bool :=
   forallb (fun gr => match snd gr with [] => true | c :: cs => forallb (fun c' => lenN c' =? lenN c) cs end) g.
 Definition wf_vdatab (d : vdata) : bool :=
   wf_arrb (a_type (v_points d)) (a_nc (v_points d)) (a_rows (v_points d)) &&
-  nodupb (map fst (v_groups d)) && rectangularb (v_groups d) &&
+  nodupb (map fst (v_groups d)) &&
   wf_arrb (v_itype d) 1 (col (writer_connectivity (v_groups d))) &&
   fits_indexb (writer_offsets (v_groups d)) && fits_indexb (writer_types (v_groups d)) &&
   forallb (fun na => wf_arrb (a_type (snd na)) (a_nc (snd na)) (a_rows (snd na))) (v_pdata d) &&
@@ -309,12 +308,11 @@ Proof.
   unfold wf_vdatab. intros H.
   apply andb_prop in H. destruct H as [H H8]. apply andb_prop in H. destruct H as [H H7].
   apply andb_prop in H. destruct H as [H H6]. apply andb_prop in H. destruct H as [H H5].
-  apply andb_prop in H. destruct H as [H H4]. apply andb_prop in H. destruct H as [H H3].
+  apply andb_prop in H. destruct H as [H H4].
   apply andb_prop in H. destruct H as [H1 H2].
   constructor.
   - apply wf_arrb_sound. exact H1.
   - apply nodupb_sound. exact H2.
-  - apply rectangularb_sound. exact H3.
   - apply wf_arrb_sound. exact H4.
   - apply fits_indexb_sound. exact H5.
   - apply fits_indexb_sound. exact H6.
